@@ -182,7 +182,12 @@ def readPartitions (connTopic : String) (res : MResponse) : Except Int (List UPa
 partition → committed offset -/
 def consumerOffsetsRequest (topic : UTopic) : List Int := topic.partitions.map (·.id)
 
-def consumerOffsets (fetched : List UOFPart) : List (Int × Int) :=
-  goMap (fetched.map fun p => (p.partition, p.committed))
+/-- last step of ConsumerOffsets on the user-level OffsetFetch response of the topic: a group-level error fails the
+call; a partition with an error is left out and the first such error (its partition, its code) is returned together
+with the offsets of the others (after fix C19-D31; before, errors were dropped and failed partitions read −1) -/
+def consumerOffsets (groupErr : Int) (fetched : List UOFPart) : Except Int (List (Int × Int) × Option (Int × Int)) :=
+  if groupErr != 0 then .error groupErr
+  else .ok (goMap ((fetched.filter (·.error == 0)).map fun p => (p.partition, p.committed)),
+            (fetched.find? (·.error != 0)).map fun p => (p.partition, p.error))
 
 end KV.Mappings
